@@ -926,12 +926,12 @@ def emit_entries(em, parser, legs=("h", "n")):
                 vals = [v - 2 ** 64 if v >= 2 ** 63 else v for v in vals]
                 lit = lambda k: "(-9223372036854775807ll - 1)" if k == -2 ** 63 else "%dll" % k
                 L.append("  uint64_t x_%s = nd (); H_ASSUME (%s);" % (n, " | ".join("((int64_t) x_%s == %s)" % (n, lit(k)) for k in vals)))
-                L.append("  switch ((int64_t) x_%s) { %s default: break; } /* case split: one path per value */"
+                L.append("  switch ((int64_t) x_%s) { %s default: H_ASSUME (0); } /* case split: one path per value, nothing else */"
                          % (n, " ".join("case %s: x_%s = (uint64_t) %s; break;" % (lit(k), n, lit(k)) for k in vals)))
             elif mr:
                 lo, hi = int(mr.group(1)), int(mr.group(2))
                 L.append("  uint64_t x_%s = nd (); H_ASSUME (((int64_t) x_%s >= %d) & ((int64_t) x_%s <= %d));" % (n, n, lo, n, hi))
-                L.append("  switch ((int64_t) x_%s) { %s default: break; } /* case split: one path per value */"
+                L.append("  switch ((int64_t) x_%s) { %s default: H_ASSUME (0); } /* case split: one path per value, nothing else */"
                          % (n, " ".join("case %d: x_%s = (uint64_t) %dll; break;" % (k, n, k) for k in range(lo, hi + 1))))
             elif mc:
                 L.append("  uint64_t x_%s = (uint64_t) %sll; (void) nd ();" % (n, mc.group(1)))
